@@ -202,6 +202,7 @@ def P(pid):
             ('RF-Y failures of fallible operations are never discarded', rf_errors.rule_errors_not_discarded, 60),
             ('RF-E decoder framing', rf_frame.rule_decoder_framing, 7),
             ('RF-D identity / zero exclusion in decoders', lambda c: rf_gates.rule_accept_requirements(c, T.DECODER_REQS), 6),
+            ('RF-D every decoded member is tested for the value its decoder refuses', lambda c: rf_gates.rule_decoded_values_tested(c, T.DECODED_MEMBERS), 8),
             ('RF-D the serde decoders refuse what the octet decoders refuse', rf_codec.rule_serde_checked_decoders, 6),
             ('RF-N placeholder variants cannot be built from serialised data', rf_codec.rule_placeholder_variants_not_deserialisable, 4),
             ('RF-D checked constructors only', rf_frame.rule_checked_constructors, 8),
@@ -222,8 +223,9 @@ def P(pid):
             ('RF-A absent == empty in every function of the layer', rf_consts.rule_option_normalisation_all, 50),
             ('RF-S no shared state (schedule quantifier)', rf_consts.rule_shared_state, 3),
             ('RF-D the verifiers refuse the values the octet decoders refuse (identity key, identity A, e = 0)', lambda c: rf_gates.rule_accept_requirements(c, T.VERIFY_VALUE_REQS), 6),
-            ('RF-D the proof verifiers refuse a zero scalar (octets_to_proof)', lambda c: rf_gates.rule_accept_requirements(c, T.PROOF_VALUE_REQS), 2),
+            ('RF-D the proof verifiers refuse a zero scalar (octets_to_proof)', lambda c: rf_gates.rule_accept_requirements(c, T.PROOF_VALUE_REQS), 10),
             ('RF-D identity / zero exclusion in decoders', lambda c: rf_gates.rule_accept_requirements(c, T.DECODER_REQS), 6),
+            ('RF-D every decoded member is tested for the value its decoder refuses', lambda c: rf_gates.rule_decoded_values_tested(c, T.DECODED_MEMBERS), 8),
             ('RF-D the serde decoders refuse what the octet decoders refuse', rf_codec.rule_serde_checked_decoders, 6),
         ]
         meta['explanation'] = ('Value-level conformance with the drafts cannot be decided statically and is not claimed. Decided clauses: the three size '
@@ -429,6 +431,17 @@ for _g, _ps in _R6.items():
     if os.path.exists(os.path.join(os.path.dirname(os.path.dirname(os.path.abspath(__file__))), _f)):
         for _p in _ps:
             NEGATIVE[_p].append(_f)
+
+# round 10: refactorings of the code the repairs of rounds 7 - 9 added (representation changes, validate / compute phases split into helpers,
+# `ensure(cond, msg)?` error plumbing, performance rewrites)
+_R10 = {'R10N1': ['C03', 'C04', 'C05', 'C06', 'C08', 'C09', 'C10'], 'R10N2': ['C01', 'C02', 'C04', 'C08', 'C09', 'C10'], 'R10N3': ['C14', 'C15', 'C16'],
+        'R10N4': ['C14', 'C15', 'C17', 'C19'], 'R10N5': ['C13', 'C14', 'C18']}
+for _g, _ps in _R10.items():
+    for _j in (1, 2, 3, 4):
+        _f = 'selftest/negative/%s-p%d.patch' % (_g, _j)
+        if os.path.exists(os.path.join(os.path.dirname(os.path.dirname(os.path.abspath(__file__))), _f)):
+            for _p in _ps:
+                NEGATIVE[_p].append(_f)
 
 # rules that are also evaluated on the other production configurations in the thorough tier (guards against feature-gated divergence)
 def thorough_extra(pid):
